@@ -42,7 +42,45 @@ def _entries():
         for env in ({}, {"os_name": "posix", "python_version": "3.9", "extra": "a"}, {"python_full_version": "3.13.0+", "extra": None}):
             m.evaluate(env)
 
+    ENVS = ({}, {"os_name": "posix", "python_version": "3.9", "extra": "a"}, {"python_full_version": "3.13.0+", "extra": None})
+
+    def req_marker_eval(s):
+        # the marker attached to a parsed requirement (built without Marker.__init__) must fail the same way
+        try:
+            r = requirements.Requirement("name ; " + s)
+        except requirements.InvalidRequirement:
+            return
+        if r.marker is not None:
+            for env in ENVS:
+                r.marker.evaluate(env)
+
+    def meta_marker_eval(s):
+        try:
+            m = metadata.Metadata.from_raw({"metadata_version": "2.1", "name": "n", "version": "1", "requires_dist": ["name ; " + s]})
+        except EG:
+            return
+        for r in m.requires_dist:
+            if r.marker is not None:
+                for env in ENVS:
+                    r.marker.evaluate(env)
+
+    def derived_sets(s):
+        # objects obtained from other objects (members of a set, intersections) answer queries like constructed ones
+        try:
+            ss = specifiers.SpecifierSet(s)
+        except specifiers.InvalidSpecifier:
+            return
+        both = ss & ss & s
+        for x in [ss, both, *list(ss)]:
+            str(x), hash(x), x == ss, x.prereleases
+            for c in ("1.0", "1.0a1", version.Version("2.0.post1+l")):
+                x.contains(c), c in x
+            list(x.filter(["1.0", "2.0b1", version.Version("3")]))
+
     return {
+        "Requirement.marker.evaluate": (req_marker_eval, (markers.UndefinedComparison, markers.UndefinedEnvironmentName), "marker"),
+        "Metadata.requires_dist.marker.evaluate": (meta_marker_eval, (markers.UndefinedComparison, markers.UndefinedEnvironmentName), "marker"),
+        "SpecifierSet(derived).queries": (derived_sets, (), "clauses"),
         "Version": (version.Version, (version.InvalidVersion,), "version"),
         "Specifier": (specifiers.Specifier, (specifiers.InvalidSpecifier,), "clause"),
         "SpecifierSet": (specifiers.SpecifierSet, (specifiers.InvalidSpecifier,), "clauses"),
